@@ -531,3 +531,20 @@ func vfRegexEquivLiterals(pattern string, lits []string) bool {
 	vfNotes = append(vfNotes, fmt.Sprintf("native: witness %q: regex matches=%v, in literal set=%v", string(w), re.MatchString(string(w)), in))
 	return re.MatchString(string(w)) == in
 }
+
+// vfSharedWrites runs f with the package state and everything reachable from
+// the roots frozen and returns the number of stores into frozen objects.
+// Natively f is run twice concurrently (the replay is built with -race, so a
+// write to shared state is reported by the race detector) and 0 is returned.
+func vfSharedWrites(roots []interface{}, f func()) int {
+	done := make(chan struct{}, 2)
+	for i := 0; i < 2; i++ {
+		go func() {
+			defer func() { recover(); done <- struct{}{} }()
+			f()
+		}()
+	}
+	<-done
+	<-done
+	return 0
+}
